@@ -9,7 +9,8 @@ SPEC = dict(
                 "verifyRawCerts at drawn clock offsets; per-sample oracles derived from the statement. Sampling, not proof."),
     level_note=("trusted: testing/synctest fake clock (benbjohnson/clock.New() is a thin wrapper over package time, hence "
                 "virtual inside the bubble), crypto/x509 parsing of the served leaf, the harness oracles; the harness is "
-                "compiled into the package under test through a build overlay, /repo is not modified"),
+                "compiled into the package under test through a build overlay, /repo is not modified; simulated_time_s is a lower "
+                "bound (each worker stops adding after 140 years so that the worker's int64 nanosecond sum cannot wrap)"),
     technique="deterministic simulation: real certManager + verifyRawCerts in a synctest bubble, in-package harness via overlay, sampled-instant oracles",
     design_ref="DESIGN.md section 6 (C18)",
     quick_s=30, thorough_s=300,
